@@ -69,7 +69,14 @@ void GammaDiscreteDistribution::fireParameterChanged(const ParameterList& parame
   alpha_ = getParameterValue("alpha");
   beta_ = getParameterValue("beta");
   if (hasParameter("offset"))
+  {
+    double oldOffset = offset_;
     offset_ = getParameterValue("offset");
+    // the domain starts at the offset, unless it has been restricted to a higher lower bound
+    // (or to an upper bound below the new offset: nothing of the distribution is left on it)
+    if ((intMinMax_->getLowerBound() == oldOffset || intMinMax_->getLowerBound() < offset_) && offset_ < intMinMax_->getUpperBound())
+      intMinMax_->setLowerBound(offset_, true);
+  }
   ga1_ = exp(RandomTools::lnGamma(alpha_ + 1) - RandomTools::lnGamma(alpha_));
 
   discretize();
